@@ -10,7 +10,7 @@ MODEL_NOTE = "Trusts go/parser, go/printer and reflection over go/ast as the def
 # id -> (level category, technique, level text, level note, design ref)
 CHECKS = {
     "C08": ("exploration",
-            "generated-input search (exhaustive prefix sweep of repository patches, token mutation, template-grammar ill-typed patches, random bytes) against a crash/hang oracle; thorough adds coverage-guided go test -fuzz",
+            "generated-input search (exhaustive prefix sweep of repository patches, token mutation, template-grammar ill-typed patches incl. targets with absent optional parts and a damaging first change, stress cases: deep nesting and many elisions on long lists, random bytes) against a crash/hang oracle; thorough adds coverage-guided go test -fuzz",
             "Every prefix of every repository patch plus thousands (quick) to millions (thorough) of generated malformed, truncated, token-mutated and ill-typed patches are run through patch.Parse/Apply behind recover and a watchdog, a sample through the CLI; any panic, hang or silent failure is a violation. Sampling cannot show absence, hence exploration.",
             "Trusts go test's process isolation and a 10 s watchdog as the definition of 'hang' on inputs of a few KB.",
             "DESIGN.md §4 C08"),
@@ -28,7 +28,7 @@ CHECKS = {
             MODEL_NOTE, "DESIGN.md §4 C03"),
     "C04": ("exploration",
             "exhaustive small-scope enumeration (all patterns over {atom, atom, metavariable, metavariable, elision} up to a length bound x all lists up to length 5, per list kind) against a 30-line backtracking list model, plus generated elision-heavy mined patterns against the reference matcher",
-            "Within the stated bound every (pattern, list) pair of every list kind is executed through patch.Parse/Apply and compared with the list model (match iff some choice of runs exists; shortest-first runs; elided elements reproduced in place) - exhaustive inside the bound, sampled (part b) outside it. Claimed as exploration because the bound is small.",
+            "Within the stated bound every (pattern, list) pair of every list kind is executed through patch.Parse/Apply and compared with the list model (match iff some choice of runs exists; shortest-first runs; elided elements reproduced in place) - exhaustive inside the bound, sampled (part b) outside it. Parts (c) and (d) add generated statement patches whose calls stand on removed / context / added lines (an elision on a context line must reproduce its own arguments) and lists of 40-130 elements against a string-atom version of the list model. Claimed as exploration because the bound is small.",
             MODEL_NOTE + " The list model is 30 lines (c04Model).", "DESIGN.md §4 C04"),
     "C05": ("exploration",
             "generated-input search on large real hosts; whole-file canonical-tree comparison of gopatch's output with the reference rewrite, imports as multiset",
@@ -79,7 +79,7 @@ CHECKS = {
             "No comment may appear more often in the output than in the input; every top-level declaration whose code is unchanged keeps its doc, inner and trailing comments in order; header/package comments and free-standing comments between untouched declarations survive.",
             "Comments are compared by whitespace-normalised text on gofmt-stable inputs; 'nothing was rewritten' is decided by exact equality of the declaration's syntax tree before and after.", "DESIGN.md §4 C17"),
     "C18": ("exploration",
-            "enumerated table of 4067 header shapes x flag x modes plus generated compositions, against a three-valued reference predicate computed by a hand-written lexer",
+            "enumerated table of about 4500 header shapes (incl. headers of 7 KB and 70 KB) x flag x modes, generated compositions, and generated runs over 2-7 files of which several are generated and adjacent in path order, against a three-valued reference predicate computed by a hand-written lexer",
             "Every header shape (marker spelling, comment style, placement) is run through the CLI with and without --skip-generated in several modes; must-skip files must be untouched and silent, must-process files must behave exactly as without the flag, the flag-off run must ignore markers.",
             "Trusts the reference predicate written from the README wording; well-formed text in block comments / indented, and @generated outside the package doc are not judged.", "DESIGN.md §4 C18"),
     "C19": ("exploration",
